@@ -90,6 +90,7 @@ Section Collapse.
   Hypothesis Hc : cinv E' st.
   Hypothesis Hp : pres (fun _ => False) st.
   Hypothesis Hcm : compl E st.
+  Hypothesis Hids : forall z, mentioned E' z -> aget z (t_ids st) <> None.
   Hypothesis Hdx : dominant st xs.
   Hypothesis Hdy : dominant st ys.
   Hypothesis Hne : xs <> ys.
@@ -882,5 +883,96 @@ Section Collapse.
           * destruct (Hcm ys b0 y v Hdy Hdb Hmy Hmb Hyv) as [<-|He]; [left; reflexivity|right; exact He].
       - exfalso. apply Hab. apply (sinv_mem_disj st6 Hs6 a b v); assumption.
     Qed.
+
+    Lemma aset_keeps : forall (m : list (nat * nat)) k v z, aget z m <> None -> aget z (aset k v m) <> None.
+    Proof. intros m k v z H. rewrite aget_aset. destruct (Nat.eqb z k); [discriminate|exact H]. Qed.
+
+    Lemma dom_xs6 : dom_to st6 xs xs.
+    Proof.
+      pose proof (Hdt6 xs xs (dominant_dom_to st xs Hdx)) as H.
+      destruct (existsb (Nat.eqb xs) l) eqn:Ex; [apply lk in Ex; exfalso; apply xs_notl; exact Ex|exact H].
+    Qed.
+
+    Lemma wfF : forall (m6 m8 : mset), mgood V m8 -> NoDup (map fst m6) ->
+      (forall k, aget k m6 = if existsb (Nat.eqb k) l then None else aget k m8) ->
+      (forall a b, In b (eget a (aset xs (sdiff (srem ys (eget xs m6)) M') m6)) -> D' a /\ D' b) ->
+      mset_wf Fn (aset xs (sdiff (srem ys (eget xs m6)) M') m6).
+    Proof.
+      intros m6 m8 G Hk Hg Hrange. split; [apply nodup_keys_aset; exact Hk|].
+      intros k c Hkcc.
+      assert (Hc' : eget k (aset xs (sdiff (srem ys (eget xs m6)) M') m6) = c) by (apply eget_some; exact Hkcc).
+      assert (Hn : NoDup c /\ D' k).
+      { rewrite aget_aset in Hkcc. destruct (Nat.eqb_spec k xs) as [->|Hkx].
+        - inversion Hkcc; subst. split; [|exact D'xs]. apply nodup_sdiff, nodup_srem.
+          unfold eget. rewrite Hg. destruct (existsb (Nat.eqb xs) l); [constructor|].
+          apply (mgood_eget V m8 xs G).
+        - rewrite Hg in Hkcc. destruct (existsb (Nat.eqb k) l) eqn:Ek; [discriminate|].
+          destruct G as [[_ Gn] Gr]. split; [apply (Gn k c Hkcc)|].
+          assert (~ In k l) by (intros Hi; apply lk in Hi; congruence). rewrite in_l in H.
+          split; [apply (proj1 (Gr k c Hkcc))|tauto]. }
+      destruct Hn as [Hn Dk]. split; [apply domF; exact Dk|]. split; [exact Hn|].
+      intros j Hj. apply domF. rewrite <- Hc' in Hj. apply (Hrange k j Hj).
+    Qed.
+
+    Theorem final_inv : tinv E' Fn.
+    Proof.
+      constructor.
+      - exact (s_subs_range st6 Hs6).
+      - exact (s_subs_keys st6 Hs6).
+      - exact (s_subs_dom st6 Hs6).
+      - exact (s_sets_nodup st6 Hs6).
+      - exact (s_subsumed_empty st6 Hs6).
+      - (* ids *)
+        intros z i Hz. unfold Fn, final in Hz; cbn [t_ids] in Hz. rewrite !aget_aset in Hz.
+        assert (Hxs : xs < nsets st6 /\ exists d, dom_to st6 xs d /\ mem_of st6 d z -> True) by (split; [rewrite Hn6; apply Hdx|exists xs; auto]).
+        destruct (Nat.eqb_spec z y) as [->|Hzy].
+        + inversion Hz; subst. split; [change (xs < nsets st6); rewrite Hn6; apply Hdx|].
+          exists xs. split; [exact dom_xs6|]. apply Hm6. left. split; [reflexivity|]. right. exists ys. split; [apply in_l; auto|exact Hmy].
+        + destruct (Nat.eqb_spec z x) as [->|Hzx].
+          * inversion Hz; subst. split; [change (xs < nsets st6); rewrite Hn6; apply Hdx|].
+            exists xs. split; [exact dom_xs6|]. apply Hm6. left. auto.
+          * exact (s_ids_mem st6 Hs6 z i Hz).
+      - intros s u Hu. unfold Fn, final; cbn [t_ids]. apply aset_keeps, aset_keeps. exact (s_mem_ids st6 Hs6 s u Hu).
+      - unfold Fn, final; cbn [t_ids]. apply nodup_keys_aset, nodup_keys_aset. exact (s_ids_keys st6 Hs6).
+      - apply (wfF (t_conn st6) c8 good_c8 Hkc Hc6). intros a b H. apply (cnF_D' a b H).
+      - apply (wfF (t_rev st6) r8 good_r8 Hkr Hr6). intros a b H. apply (rvF_D' a b H).
+      - intros d Hd. apply domF in Hd. unfold Fn, final; cbn [t_conn t_rev]. rewrite !ahas_aset.
+        destruct (Nat.eqb_spec d xs) as [->|Hdxs]; [split; reflexivity|]. cbn [orb].
+        pose proof Hd as [Hd1 [Hd2 Hd3]].
+        assert (Hl : existsb (Nat.eqb d) l = false).
+        { destruct (existsb (Nat.eqb d) l) eqn:Ed; [|reflexivity]. apply lk, in_l in Ed. tauto. }
+        unfold ahas. rewrite Hc6, Hr6, Hl. split; [apply (ahas_c8 d Hd1)|apply (ahas_r8 d Hd1)].
+      - exact (s_nonempty st6 Hs6).
+      - intros a b Hab. rewrite (cnF_rel a b Hab), (rvF_rel a b Hab). reflexivity.
+      - intros a b c Hab Hbc Hac.
+        destruct (Nat.eq_dec a b) as [->|Nab]; [exact Hbc|]. destruct (Nat.eq_dec b c) as [<-|Nbc]; [exact Hab|].
+        apply (cnF_rel a b Nab) in Hab. apply (cnF_rel b c Nbc) in Hbc. apply (cnF_rel a c Hac).
+        destruct Hab as [Da [Db Rab]]. destruct Hbc as [_ [Dc Rbc]]. split; [exact Da|]. split; [exact Dc|].
+        apply (rel_trans a b c); assumption.
+      - intros a b Hab H1 H2. apply (cnF_rel a b Hab) in H1. assert (Hba : b <> a) by congruence.
+        apply (cnF_rel b a Hba) in H2. destruct H1 as [Da [Db R1]]. destruct H2 as [_ [_ R2]].
+        apply (rel_antisym a b); assumption.
+      - (* m_ids *)
+        intros z. unfold Fn, final; cbn [t_ids]. split.
+        + rewrite !aget_aset. destruct (Nat.eqb_spec z y) as [->|Hzy]; [intros _; apply mentioned_snoc; auto|].
+          destruct (Nat.eqb_spec z x) as [->|Hzx]; [intros _; apply mentioned_snoc; auto|].
+          rewrite Hids6. apply (c_ids_ment E' st Hc).
+        + intros Hz. apply aset_keeps, aset_keeps. rewrite Hids6. apply Hids; exact Hz.
+      - exact class_sound.
+      - exact conn_sound.
+      - intros a b u v Ha Hb. apply domF in Ha. apply domF in Hb. apply complete_Fn; assumption.
+    Qed.
   End Final.
+
+  Theorem collapse_main : exists st', collapse_branch st x y xs ys = Ok (st', true) /\ tinv E' st'.
+  Proof.
+    destruct collapse_run as [st6 [Hrun [Hs6 [Hids6 [Hn6 [Hc6 [Hr6 [Hkc [Hkr [Hd6 [Hm6 Hdt6]]]]]]]]]]].
+    exists (final st6). split; [exact Hrun|]. apply final_inv; assumption.
+  Qed.
 End Collapse.
+
+Theorem collapse_spec : mm_collapse_stmt -> collapse_ok_stmt.
+Proof.
+  intros Hmc E st x y xs ys Hc Hp Hcm Hids Hdx Hdy Hne Hmx Hmy Hback.
+  apply (collapse_main E st x y xs ys); assumption.
+Qed.
